@@ -55,6 +55,29 @@ Theorem C15_copy_cstr_reserve_spec : forall cap s,
 Proof. exact copy_cstr_reserve_spec. Qed.
 Print Assumptions C15_copy_cstr_reserve_spec.
 
+(* The code as it is now (facts re-read from capi/src/io.rs, public.rs): every one of the six static
+   buffers, for EVERY valid text: NUL-terminated within its capacity, valid UTF-8, a prefix of the text
+   cut on a character boundary, and equal to the heap variant's text whenever |s| < cap. *)
+Theorem C15_copy_cstr_spec : forall b s,
+  utf8_valid s = true -> no_nul s = true ->
+  let cap := N.to_nat (cap_of cfg_current b) in
+  let r := copy_cstr (cstr_reserve cfg_current) cap s in
+  length r = cap /\
+  has_nul r = true /\
+  utf8_valid (c_str r) = true /\
+  c_str r = firstn (copy_len (cstr_reserve cfg_current) cap s) s /\
+  ((length s < cap)%nat -> c_str r = s /\ c_str (s ++ [0]) = s).
+Proof.
+  intros b s Hv Hn cap r.
+  assert (Hres : cstr_reserve cfg_current = true) by reflexivity.
+  assert (Hcap : (1 <= cap)%nat) by (destruct b; vm_compute; repeat constructor).
+  unfold r. rewrite Hres.
+  destruct (copy_cstr_reserve_spec cap s Hcap Hv Hn) as [_ [H1 [H2 [H3 [_ H5]]]]].
+  split; [apply copy_cstr_length|]. split; [exact H1|]. split; [exact H3|]. split; [exact H2|].
+  intros Hlt. split; [now apply H5|]. now apply c_str_app_nul.
+Qed.
+Print Assumptions C15_copy_cstr_spec.
+
 (* data bounds under which reachable strings fit (|s| < cap): any text of <= 63 characters fits the
    256-byte buffers (pre-edit <= auto-commit threshold 39 + one phrase of <= 11, aux messages, commit
    string, candidates of well-formed dictionaries <= 11 characters, symbol category names); a bopomofo
@@ -82,6 +105,11 @@ Theorem C15_no_dangling_when_owning : forall cfg, up_owns cfg = true ->
   forall fb ops, existsb is_dangling (run cfg (init fb) ops) = false.
 Proof. exact no_dangling_own. Qed.
 Print Assumptions C15_no_dangling_when_owning.
+
+(* The code as it is now: chewing_userphrase_enumerate collects (fact re-read from the source). *)
+Theorem C15_no_dangling : forall fb ops, existsb is_dangling (run cfg_current (init fb) ops) = false.
+Proof. exact (no_dangling_own cfg_current eq_refl). Qed.
+Print Assumptions C15_no_dangling.
 
 (* The pinned tree stores Entries<'static> borrowed from the user dictionary: refuted.  Witness:
    userphrase_enumerate, has_next, userphrase_add (update branch), one key event (reopen() replaces
@@ -119,6 +147,19 @@ Theorem C15_free_spec_when_good : forall cfg, good_free cfg ->
     end.
 Proof. exact free_spec_good. Qed.
 Print Assumptions C15_free_spec_when_good.
+
+(* The code as it is now. *)
+Theorem C15_free_spec : forall fb ops, env_ok_run cfg_current (init fb) ops ->
+  existsb is_alloc_fault (run cfg_current (init fb) ops) = false /\
+  forall p, let s := run_state cfg_current (init fb) ops in
+    match assoc p (s_heap s) with
+    | Some b => snd (step cfg_current s (OFree p)) = RDealloc p (b_layout b) /\
+                assoc p (s_heap (fst (step cfg_current s (OFree p)))) = None /\
+                snd (step cfg_current (fst (step cfg_current s (OFree p))) (OFree p)) = RNone
+    | None => snd (step cfg_current s (OFree p)) = RNone
+    end.
+Proof. apply free_spec_good. repeat split; reflexivity. Qed.
+Print Assumptions C15_free_spec.
 
 (* pinned tree: the u16 slice of chewing_get_phoneSeq (3 syllables: 6 bytes, align 2) is handed back to the
    allocator as Vec<c_void> (3 bytes, align 1) *)
